@@ -170,6 +170,9 @@ func genCompStr(r *rand.Rand) string {
 	k := c03Keys[r.Intn(4)]
 	switch r.Intn(7) {
 	case 0:
+		if r.Intn(6) == 0 { // positions beyond the tenth item
+			return fmt.Sprintf("%s[%d]", k, 10+r.Intn(4))
+		}
 		return fmt.Sprintf("%s[%d]", k, r.Intn(5))
 	case 1:
 		return fmt.Sprintf("%s[%d][%d]", k, r.Intn(3), r.Intn(3))
